@@ -1,6 +1,6 @@
 (** C15 — Quoted text survives parsing and expansion unchanged. *)
 From GoSh Require Import Base.Bytes Base.Outcome Store.Env Expand.Expand Lex.Quote Lex.QuoteProofs.
-From GoSh Require Import Pattern.Regex Pattern.PCompile Expand.QuotedLiteral.
+From GoSh Require Import Pattern.Regex Pattern.PCompile Pattern.Glob Pattern.GlobLiteral Expand.QuotedLiteral.
 From GoShGen Require Import Extracted.
 
 (** For every rune string s written under one of the POSIX literal quotings, every text that
@@ -88,8 +88,48 @@ Example C15_bracket_witness :
   compile1 true (91 :: esc_pattern [93; 45; 33; 94; 97] ++ [93]) = COk [(RClass false [CChar 93; CChar 45; CChar 33; CChar 94; CChar 97], [91; 92; 93; 92; 45; 92; 33; 92; 94; 97; 93])].
 Proof. vm_compute. reflexivity. Qed.
 
-(** Not proved: the default mode with pathname expansion enabled (the escaped pattern reaches Glob,
-    whose literal fast path returns the same string when such a file exists -- observed by the
-    harness with matching files in the working directory); that a sequence of literal items matches only the
-    text itself is C12's denotation; for non-ASCII text the decoding of the pattern bytes into runes
-    (syms_of) is covered by the correspondence check, the statements above start from the runes. *)
+(** The default mode with pathname expansion enabled (no noglob), for ASCII text: the pattern that
+    reaches Glob consists of literal components only; for every file-system tree and working
+    directory the model of Glob (proved exact against the specification of pathname expansion in
+    C16) returns nothing or exactly the text, so the field is the text whatever files exist. *)
+Theorem C15_glob_of_quoted_text :
+  forall root cwd s, ascii s = true ->
+    glob_model root cwd (esc_pattern s) = GOk [] \/ glob_model root cwd (esc_pattern s) = GOk [s].
+Proof. exact glob_quoted. Qed.
+Print Assumptions C15_glob_of_quoted_text.
+
+Theorem C15_mixed_parts_any_mode :
+  forall users root cwd w text e mode,
+    word_text w = Some text -> w <> [] -> ascii text = true ->
+    expand_top users (glob_oracle root cwd) e w mode = Ok (e, [expected mode text]).
+Proof. exact quoted_word_any_mode. Qed.
+Print Assumptions C15_mixed_parts_any_mode.
+
+Theorem C15_single_quotes_any_mode :
+  forall users root cwd s tail f e mode,
+    forallb (fun c => negb (c =? 39)%N) s = true -> word_end tail -> ascii (encode_all s) = true ->
+    exists w, scan_word (S (S f)) (quote_single s ++ tail) [] = Some (w, tail) /\
+              expand_top users (glob_oracle root cwd) e w mode = Ok (e, [expected mode (encode_all s)]).
+Proof. exact roundtrip_single_fs. Qed.
+Print Assumptions C15_single_quotes_any_mode.
+
+Theorem C15_double_quotes_any_mode :
+  forall users root cwd s tail f e mode,
+    word_end tail -> ascii (encode_all s) = true ->
+    exists w, scan_word (S (S f)) (quote_double s ++ tail) [] = Some (w, tail) /\
+              expand_top users (glob_oracle root cwd) e w mode = Ok (e, [expected mode (encode_all s)]).
+Proof. exact roundtrip_double_fs. Qed.
+Print Assumptions C15_double_quotes_any_mode.
+
+Theorem C15_backslash_each_any_mode :
+  forall users root cwd s tail f e mode,
+    forallb (fun c => negb (c =? 10)%N) s = true -> s <> [] -> word_end tail -> ascii (encode_all s) = true -> (length s < f)%nat ->
+    exists w, scan_word f (quote_backslash s ++ tail) [] = Some (w, tail) /\
+              expand_top users (glob_oracle root cwd) e w mode = Ok (e, [expected mode (encode_all s)]).
+Proof. exact roundtrip_backslash_fs. Qed.
+Print Assumptions C15_backslash_each_any_mode.
+
+(** Not proved: pathname expansion of quoted text that is not ASCII (the decoding of the pattern
+    bytes into runes, syms_of, is covered by the correspondence check; observed by the harness with
+    matching files in the working directory); that a sequence of literal items matches only the
+    text itself is C12's denotation. *)
